@@ -12,7 +12,9 @@
                                                   -> exit=<n> msg=<m> done=<0|1> halted=<0|1> fuel=<n> trace=<events> <report>
 
   schedule :=  S<startErr>/I<t,t,...>/O<t,t,...>:<doneTimeout>:<fault>/O...      (one O per operation, in order;
-               operations beyond the list: no busy poll, timeout 0, no fault; idle timeouts beyond the list: 0)
+               operations beyond the list: no busy poll, timeout 0, no fault; idle timeouts beyond the list: 0;
+               <fault> = <n> : the operation ends in dfuERROR with bStatus n;  q<n> : status-only flavour,
+               bStatus n in the completing reply, bState dfuDNLOAD_IDLE)
   flash    :=  one character per page from page 0: o = original, e = erased, d = programmed; "-" = all original
   report   :=  nreq=<n> stalls=<n> mon=<5 bits: writeUnerased busyRequest earlyRequest addrRange misaligned>
                state=<code> status=<n> clock=<ms> erased=<p,p,...|-> written=<p,...|-> flash=<p:e|p:d<hex>|...,...|->
@@ -62,8 +64,9 @@ def natList (cs : List Char) : Option (List Nat) :=
 def parseOp (cs : List Char) : Option OpSched :=
   match splitChars ':' cs with
   | [b, d, f] =>
+    let (soft, f) := match f with | 'q' :: r => (true, r) | _ => (false, f)
     match natList b, natOf d, natOf f with
-    | some busy, some doneTimeout, some fault => some { busy, doneTimeout, fault }
+    | some busy, some doneTimeout, some fault => some { busy, doneTimeout, fault, statusOnly := soft }
     | _, _, _ => none
   | _ => none
 
@@ -117,6 +120,7 @@ def showMsg : ExitMsg → String
   | .ok => "ok"
   | .tooLarge => "tooLarge"
   | .eraseFailed a s => s!"eraseFailed:{a}:{s}"
+  | .addrFailed a s => s!"addrFailed:{a}:{s}"
   | .writeFailed a s => s!"writeFailed:{a}:{s}"
   | .assertion => "assertion"
   | .usbError => "usbError"
